@@ -225,8 +225,42 @@ def run(chk):
         wj, sph2 = area_world(rng, nfeat=rng.randint(1, 3), plumes=0.0, cross=False)
         cs_area.add_world(wj)
         nsurf += 1
+    # the kd-guided triangle search and its fallbacks (longitude copy of the point, scan over all triangles) on irregular
+    # triangulations across the +-180 meridian, written on either longitude branch (170..190 and -190..-170): every lookup
+    # must give what a scan over all triangles gives (the model, bit for bit; an exception "not in any triangle" is a discarded point)
+    from wbgen import cart_point as _cp, Gen as _Gen
+    from qgen import TOP as _TOP
+    area_plan = []
+    for wi in range(8 if quick else 80):
+        rng.seed("%d/c07-3/%d" % (chk.seed, wi))
+        gq = _Gen(rng)
+        lo = (-190.0, 170.0)[wi % 2]
+        poly = [[lo, -12.0], [lo + 20.0, -12.0], [lo + 20.0, 12.0], [lo, 12.0]]
+        npts = rng.randint(14, 26)
+        ent = [[float(round(rng.uniform(1.5e5, 2.5e5)))]]
+        for _k in range(npts):
+            ent.append([float(round(rng.uniform(8e4, 3e5))), [[round(lo + rng.uniform(0.5, 19.5), 2), round(rng.uniform(-11.5, 11.5), 2)]]])
+        f = {"model": ("continental plate", "oceanic plate", "mantle layer")[(wi // 2) % 3], "name": "a", "coordinates": poly, "max depth": ent,
+             "composition models": [{"model": "uniform", "compositions": [0]}]}
+        if wi % 4 >= 2:
+            f["min depth"] = [[0.0]] + [[float(round(rng.uniform(1e3, 6e4))), [[round(lo + rng.uniform(0.5, 19.5), 2), round(rng.uniform(-11.5, 11.5), 2)]]] for _k in range(8)]
+        wa = {"version": "1.1", "coordinate system": {"model": "spherical", "depth method": "begin segment"}, "features": [f]}
+        sl = cs_area.add_world(wa)
+        nsurf += 1
+        for _k in range(60):
+            dd = float(round(rng.uniform(0.0, 3.2e5)))
+            area_plan.append(cs_area.p3(sl, _cp(True, lo + rng.uniform(0.2, 19.8), rng.uniform(-11.8, 11.8), dd, 6371000.0, _TOP), dd, [[4, 0, 0], [2, 0, 0]]))
+    impl_a, model_a = cs_area.run()
+    bad_a = chk.correspond(impl_a, model_a, cs_area, max_ulp=0)
+    area_viol = []
+    for i in area_plan:
+        if impl_a[i].startswith("throw") and model_a[i].startswith("ok"):
+            dsc = cs_area.describe(i)
+            dsc["with_shortcuts"], dsc["scan_over_all_triangles"] = impl_a[i], model_a[i]
+            area_viol.append(("the triangle search of a depth surface discards a point that lies in a triangle (%s; a scan over all triangles gives %s)"
+                              % (impl_a[i][:60], model_a[i][:40]), dsc))
     impl, _ = cs.run(model=False)
-    chk.evaluations = len(impl) + nsurf
+    chk.evaluations = len(impl) + nsurf + len(impl_a)
     viol = []
     for (wj, key, mn, mx, lo, hi) in cs_area.surface_bounds[:3]:
         viol.append(("the extrema of the depth pre-test [%g, %g] of %s do not contain the nodal values [%g, %g]: the shortcut rejects depths the local surface accepts" % (mn, mx, key, lo, hi),
@@ -248,6 +282,12 @@ def run(chk):
             viol.append(("a culling shortcut changes the answer (a point of the feature is discarded)", d))
     for ia, ib, wj in plan[:3]:
         chk.sample({"query": cs.probe[ia][:160], "with": impl[ia][:80], "without": impl[ib][:80]})
+    viol = area_viol[:2] + viol
     for what, d in viol[:5]:
         chk.violation(what, d)
+    if bad_a and not viol:
+        for i in bad_a[:2]:
+            dsc = cs_area.describe(i)
+            dsc["impl"], dsc["model"] = impl_a[i], model_a[i]
+            chk.violation("correspondence Kernels.v (surface_local_value) <-> Surface::local_value broken", dsc, found_input=False)
     cs.cleanup()
